@@ -893,8 +893,8 @@ class Ctx:
                 return v + '.data'
             if m in ('clear', 'push_back', 'emplace_back', 'resize', 'reserve', 'insert', 'shrink_to_fit', 'pop_back'):
                 fn = 'vec_%s_%s' % (el, m)
-                if m == 'resize' and getattr(self, 'local_vectors_grow', False):
-                    fn = 'vec_%s_resize_any' % el     # unit option: resize of local vectors may grow (see pgmv.h)
+                if m in ('resize', 'reserve') and getattr(self, 'local_vectors_grow', False):
+                    fn = 'vec_%s_%s_any' % (el, m)     # unit option: resize of local vectors may grow (see pgmv.h)
                     self.fire('resize_may_grow')
                 self.count_call(fn)
                 args = [self.em_addr(obj, arrow)]
